@@ -61,7 +61,9 @@ class FuzzyFinder(object):
         if graph is None and self.graph is None:
             raise ValueError("Please provide a RDF graph")
 
-        if self.graph is None:
+        # A graph passed to find is the graph of this search; without one the graph
+        # of the constructor or of the previous search is used.
+        if graph is not None:
             self.graph = graph
 
         if q_str and q_params:
